@@ -391,12 +391,139 @@ pub fn zone_switch_case(rec: &mut Rec, rng: &mut Rng, prop: &'static str) {
 }
 
 /// Removes this process's synthetic zone files (called once at the end of a run).
+fn fixed_zone_bytes(off: i32) -> Vec<u8> {
+    let a = off.unsigned_abs();
+    // fixed-width footer so that files for different offsets have the same size
+    let footer = format!("LCL{}{:02}:{:02}:{:02}", if off > 0 { "-" } else { "+" }, a / 3600, a / 60 % 60, a % 60);
+    Synth { version: 2, transitions: vec![], type_idx: vec![], types: vec![(off, false)], footer, desigs: None }.bytes()
+}
+
+/// The zone changes *behind the same name*: what tzdata updates, `timedatectl set-timezone` and container images do
+/// to /etc/localtime.  (0) a regular file rewritten in place; (1) rewritten in place with the same size and the old
+/// modification time put back (package managers and rsync -t preserve mtimes); (2) a symlink whose target file is
+/// replaced by rename; (3) a symlink re-pointed to another file; (4) the file removed and created again.  Before and
+/// after, `Offset::Local` is resolved on this thread and read through a value: it must follow the file every time —
+/// the crate documents Local as the offset the system zone has *now*.
+pub fn same_name_case(rec: &mut Rec, rng: &mut Rng, prop: &'static str) {
+    rec.eval();
+    rec.api("Offset::Local.resolve (zone replaced behind the same name)");
+    let dir = zone_dir().join(format!("samename_{}_{}", std::process::id(), mix64(hash_str(&format!("{:?}", std::thread::current().id())))));
+    let _ = std::fs::create_dir_all(&dir);
+    let pick = |rng: &mut Rng| -> i32 { match rng.below(3) { 0 => *rng.pick(&[3_600i32, -3_600, 7_200, 19_800, -18_000, 0]), 1 => rng.range_i64(-23, 23) as i32 * 3_600, _ => rng.range_i64(-86_399, 86_399) as i32 } };
+    let oa = pick(rng);
+    let mut ob = pick(rng);
+    if ob == oa {
+        ob = if oa == 3_600 { -3_600 } else { 3_600 };
+    }
+    let variant = rng.below(5);
+    let name = ["regular-file-rewritten", "regular-file-rewritten-same-size-and-mtime", "symlink-target-replaced", "symlink-repointed", "file-removed-and-recreated"][variant as usize];
+    rec.bin(match variant { 0 => "same-name/regular-file-rewritten", 1 => "same-name/same-size-and-mtime", 2 => "same-name/symlink-target-replaced", 3 => "same-name/symlink-repointed", _ => "same-name/removed-and-recreated" });
+    rec.nontrivial(hash_i128s(&[oa as i128, ob as i128, variant as i128, 0x5A]));
+    let p = dir.join("localtime");
+    let f1 = dir.join("zoneA");
+    let f2 = dir.join("zoneB");
+    for x in [&p, &f1, &f2] {
+        let _ = std::fs::remove_file(x);
+    }
+    let (ba, bb) = (fixed_zone_bytes(oa), fixed_zone_bytes(ob));
+    let symlink = variant == 2 || variant == 3;
+    let setup = (|| -> std::io::Result<()> {
+        if symlink {
+            std::fs::write(&f1, &ba)?;
+            std::fs::write(&f2, &bb)?;
+            std::os::unix::fs::symlink("zoneA", &p)?;
+        } else {
+            std::fs::write(&p, &ba)?;
+        }
+        Ok(())
+    })();
+    if setup.is_err() {
+        rec.bin("same-name/setup-failed(skipped)");
+        return;
+    }
+    let now = DateTime::from_timestamp(1_700_000_000 + rng.below(10_000_000) as i64);
+    // a value half an hour before a month end: whether set_day(31) / set_month(2) / set_day_of_year(60) are accepted
+    // depends on which side of midnight the local reading is
+    let month_end = 1_675_207_800i64 + *rng.pick(&[0i64, 3_600, -3_600, 1_800]); // 2023-01-31T23:30Z ± …
+    let setters = |d: &DateTime| -> String {
+        let f = |r: Result<DateTime, astrolabe::errors::AstrolabeError>| r.map(|x| (x.timestamp(), x.day(), x.hour())).map_err(|_| "Err");
+        format!("{:?}", (f(d.set_day(31)), f(d.set_day(29)), f(d.set_month(2)), f(d.set_day_of_year(32)), f(d.set_hour(0)), d.month(), d.day()))
+    };
+    let read = |p: &PathBuf| -> Result<(i32, u32, String, String), Panic> {
+        trap(|| {
+            let _g = ZoneGuard;
+            astrolabe::verif::set_localtime_path(Some(p.clone()));
+            astrolabe::verif::pin_now(Some(now));
+            let d = DateTime::from_timestamp(1_650_000_000).set_offset(Offset::Local);
+            let e = DateTime::from_timestamp(month_end).set_offset(Offset::Local);
+            (Offset::Local.resolve(), d.hour() * 3_600 + d.minute() * 60 + d.second(), d.format("HH:mm:ss xxxxx"), setters(&e))
+        })
+    };
+    // resolve once or several times before the change (a cache would be warm)
+    let mut before = read(&p);
+    for _ in 0..rng.below(3) {
+        before = read(&p);
+    }
+    let change = (|| -> std::io::Result<()> {
+        match variant {
+            0 => std::fs::write(&p, &bb),
+            1 => {
+                let mtime = std::fs::metadata(&p)?.modified()?;
+                std::fs::write(&p, &bb)?;
+                let f = std::fs::OpenOptions::new().write(true).open(&p)?;
+                f.set_modified(mtime)
+            }
+            2 => {
+                let tmp = dir.join("zoneA.new");
+                std::fs::write(&tmp, &bb)?;
+                std::fs::rename(&tmp, &f1)
+            }
+            3 => {
+                std::fs::remove_file(&p)?;
+                std::os::unix::fs::symlink("zoneB", &p)
+            }
+            _ => {
+                std::fs::remove_file(&p)?;
+                std::fs::write(&p, &bb)
+            }
+        }
+    })();
+    if change.is_err() {
+        rec.bin("same-name/change-failed(skipped)");
+        return;
+    }
+    let after = read(&p);
+    let wit = |obs: serde_json::Value| json!({"variant": name, "offset_of_the_first_zone": oa, "offset_of_the_second_zone": ob, "observed": obs});
+    match (before, after) {
+        (Ok(b), Ok(a)) => {
+            let model = |o: i32| (1_650_000_000i64 + o as i64).rem_euclid(86_400) as u32;
+            if b.0 != oa || b.1 != model(oa) {
+                rec.violation(format!("{}|local-same-name|Offset::Local|first-zone-not-applied", prop), || wit(json!({"resolve": b.0, "local_second_of_day": b.1, "format": b.2})));
+            } else if a.0 != ob || a.1 != model(ob) {
+                rec.violation(format!("{}|local-same-name|Offset::Local|stale-zone-after-the-file-changed|{}", prop, name), || wit(json!({"resolve_before": b.0, "resolve_after": a.0, "local_second_of_day_after": a.1, "expected": model(ob), "format_after": a.2})));
+            } else if trap(|| setters(&DateTime::from_timestamp(month_end).set_offset(Offset::Fixed(ob)))).map(|t| t != a.3).unwrap_or(false) {
+                rec.violation(format!("{}|local-same-name|set_* on an Offset::Local value|differs-from-the-Fixed-twin-after-the-file-changed|{}", prop, name), || wit(json!({"setters_on_the_local_value": a.3})));
+            } else {
+                rec.bin("same-name/followed-the-file");
+            }
+        }
+        (Err(pn), _) | (_, Err(pn)) => rec.violation(format!("{}|local-same-name|Offset::Local|panic|{},{}", prop, pn.class, pn.site()), || wit(pn.to_json())),
+    }
+    for x in [&p, &f1, &f2] {
+        let _ = std::fs::remove_file(x);
+    }
+}
+
 pub fn cleanup() {
     if let Ok(rd) = std::fs::read_dir(zone_dir()) {
         let pre = format!("fixed_{}_", std::process::id());
+        let pre2 = format!("samename_{}_", std::process::id());
         for e in rd.flatten() {
             if e.file_name().to_string_lossy().starts_with(&pre) {
                 let _ = std::fs::remove_file(e.path());
+            }
+            if e.file_name().to_string_lossy().starts_with(&pre2) {
+                let _ = std::fs::remove_dir_all(e.path());
             }
         }
     }
